@@ -27,7 +27,7 @@ pub struct OpDef {
 }
 
 pub fn list_ops() -> Vec<OpDef> {
-    let o = |name: &'static str, code| OpDef { compound: matches!(name, "iterate" | "keys"), name, code };
+    let o = |name: &'static str, code| OpDef { compound: matches!(name, "iterate" | "keys" | "destructure-arg" | "destructure-match" | "destructure-for"), name, code };
     vec![
         o("push", "shared.push 7\nexport {r} = 'done'"),
         o("pop", "export {r} = '{shared.pop()}'"),
@@ -56,6 +56,10 @@ pub fn list_ops() -> Vec<OpDef> {
         o("slice", "export {r} = '{shared[0..2].to_tuple()}'"),
         o("iterate", "t = 0\nfor x in shared\n  t += x\nexport {r} = '{t}'"),
         o("swap-with-private", "other = [40, 41, 42]\nshared.swap other\nexport {r} = '{other.to_tuple()}'"),
+        // element-wise unpacking (several container accesses: compound; must not panic or deadlock)
+        o("destructure-arg", "f = |(a, rest...)| a\nexport {r} = '{f shared}'"),
+        o("destructure-match", "export {r} = match shared\n  (a, ...) then '{a}'\n  else 'none'"),
+        o("destructure-for", "t = 0\nfor (a, ...) in (shared,)\n  t += a\nexport {r} = '{t}'"),
     ]
 }
 
